@@ -92,6 +92,8 @@ class Ev:
         if t[0] == "INSTF" and len(t) > 2:      # instantiate with funds attached: same request, funds kept aside
             self.inst_funds = t[1]
             t = ["INST"] + t[2:]
+        elif t[0] == "INSTX":                   # instantiate sent as JSON with an undeclared member: same request
+            t = ["INST"] + t[1:]
         self.tok = t
         self.kind = t[0]
         self.sub = None
@@ -252,6 +254,11 @@ def project(prop, b, ev, ctx):
             # what every order's exit will have to return is fixed by the book the migration leaves behind
             return (ok, (tuple(sorted(ask_amounts(a) for a in b.asks.values())),
                          tuple(sorted(bid_amounts(x) for x in b.bids.values()))))
+        if k == "EXEC" and b.has_dump and sub not in ("modify_contract",):
+            # ... and, after every request, by what the orders it names record as remaining
+            ai, bi = ev.ids()
+            return (ok, (tuple(ask_amounts(b.asks[i]) if i in b.asks else None for i in ai),
+                         tuple(bid_amounts(b.bids[i]) if i in b.bids else None for i in bi)))
         if k == "PEXEC" and sub in ("cancel_ask", "cancel_bid", "expire_ask", "expire_bid"):
             ai, bi = ev.ids()
             # ... and which orders are open afterwards: every other order must still be there to be exited in its turn
@@ -747,6 +754,19 @@ class Oracle:
                         out.append(("C16", None, "cancel_ask pays %r, the order a query reports holds %r" % (sorted(got.items()), sorted(want.items()))))
             except Exception:
                 pass
+        # ---- C16: what get_ask reports for a plain ask (the denomination it sells) is what a match delivers to the buyer
+        if b.ok and k in ("EXEC", "PEXEC") and ev.sub == "execute_match" and not self.self_sent:
+            try:
+                ai_, bi_ = ev.ids()
+                a0_, b0_ = self.asks.get(ai_[0]), self.bids.get(bi_[0])
+                s_ = int(ev.args[3])
+                if a0_ is not None and isinstance(b0_, fmt.Bid) and a0_.cls[0] == "basic" and b0_.owner != SELF:
+                    got_ = dict(flows(b, ev)).get((b0_.owner, a0_.base), 0)
+                    if got_ < s_ and not (b0_.owner == a0_.owner):
+                        out.append(("C16", None, "the ask reported by get_ask sells %s; the match of %d delivered %d of it to the buyer"
+                                    % (a0_.base, s_, got_)))
+            except Exception:
+                pass
         # ---- C13: instantiate accepted exactly for coherent messages, stored = request
         if k == "INST" and len(ev.tok) >= 16:
             try:
@@ -1175,6 +1195,9 @@ class Oracle:
                 pv = parse_dec(x.price)
                 if pv is None or pv <= 0:
                     out.append(("C11", None, "order %s carries a price that is not a positive decimal numeral: %r" % (x.key[:8], x.price)))
+                elif self.cfg is not None and self.cfg.precision <= 28 and pv * 10 ** self.cfg.precision >= 2 ** 96:
+                    out.append(("C11", None, "order %s carries price %s, which cannot be scaled by 10^%d in 96 bits: the contract can never "
+                                             "price a match of it" % (x.key[:8], x.price, self.cfg.precision)))
             for a in b.asks.values():
                 if a.size < 1 or (a.cls[0] == "basic") != (self.cfg is not None and a.base == self.cfg.base):
                     out.append(("C11", None, "ask %s inconsistent (size %d, class %s, base %s)" % (a.key[:8], a.size, a.cls[0], a.base)))
